@@ -10,6 +10,7 @@ import TshVerif.Model.Parser
 import TshVerif.Model.Cli
 import TshVerif.Model.Wf
 import TshVerif.Model.Typed
+import TshVerif.Model.StdStrings
 
 open Tsh
 
@@ -150,7 +151,64 @@ def handleFullBatch (args : List String) : String :=
     | .panic => "PANIC"
     | .diverge => "DIVERGE"
 
+/-! ### std/strings: STRM (rendering of the library) and STRS (specification of Go's package) -/
+
+inductive SArg | s (v : Std.Str) | i (v : Int) | l (v : List Std.Str)
+
+def decStr (h : String) : Option Std.Str := (bytesOfHex h).map fun bs => bs.map fun b => Char.ofNat b.toNat
+
+def decSArg (a : String) : Option SArg :=
+  if a.startsWith "s:" then (decStr (a.drop 2).toString).map SArg.s
+  else if a.startsWith "i:" then (a.drop 2).toString.toInt?.map SArg.i
+  else if a.startsWith "l:" then
+    let body := (a.drop 2).toString
+    if body == "-" then some (SArg.l []) else (body.splitOn ",").mapM decStr |>.map SArg.l
+  else none
+
+def encStr (s : Std.Str) : String := "s:" ++ hexOfBytes (s.map fun c => UInt8.ofNat c.toNat)
+def encBool (b : Bool) : String := if b then "b:1" else "b:0"
+def encList (l : List Std.Str) : String :=
+  if l.isEmpty then "l:-" else "l:" ++ ",".intercalate (l.map fun e => hexOfBytes (e.map fun c => UInt8.ofNat c.toNat))
+
+def handleStr (spec : Bool) (parts : List String) : String :=
+  match parts with
+  | fn :: args =>
+    match args.mapM decSArg with
+    | none => "BADREQ"
+    | some as =>
+      match fn, as with
+      | "Index", [.s a, .s b] => s!"i:{if spec then Std.Go.index a b else Std.Lib.index a b}"
+      | "Contains", [.s a, .s b] => encBool (if spec then Std.Go.contains a b else Std.Lib.contains a b)
+      | "Join", [.l a, .s b] => encStr (if spec then Std.Go.join a b else Std.Lib.join a b)
+      | "HasPrefix", [.s a, .s b] => encBool (if spec then Std.Go.hasPrefix a b else Std.Lib.hasPrefix a b)
+      | "HasSuffix", [.s a, .s b] => encBool (if spec then Std.Go.hasSuffix a b else Std.Lib.hasSuffix a b)
+      | "Count", [.s a, .s b] => s!"i:{if spec then Std.Go.count a b else Std.Lib.count a b}"
+      | "Split", [.s a, .s b] => encList (if spec then Std.Go.split a b else Std.Lib.split a b)
+      | "Repeat", [.s a, .i n] =>
+          if spec then (match Std.Go.repeat_ a n with | some r => encStr r | none => "panic") else encStr (Std.Lib.repeat_ a n)
+      | "Replace", [.s a, .s b, .s c, .i n] => encStr (if spec then Std.Go.replace a b c n else Std.Lib.replace a b c n)
+      | "ReplaceAll", [.s a, .s b, .s c] => encStr (if spec then Std.Go.replaceAll a b c else Std.Lib.replaceAll a b c)
+      | "Cut", [.s a, .s b] =>
+          let r := if spec then Std.Go.cut a b else Std.Lib.cut a b
+          encStr r.1 ++ " " ++ encStr r.2.1 ++ " " ++ encBool r.2.2
+      | "CutPrefix", [.s a, .s b] =>
+          let r := if spec then Std.Go.cutPrefix a b else Std.Lib.cutPrefix a b
+          encStr r.1 ++ " " ++ encBool r.2
+      | "CutSuffix", [.s a, .s b] =>
+          let r := if spec then Std.Go.cutSuffix a b else Std.Lib.cutSuffix a b
+          encStr r.1 ++ " " ++ encBool r.2
+      | "TrimPrefix", [.s a, .s b] => encStr (if spec then Std.Go.trimPrefix a b else Std.Lib.trimPrefix a b)
+      | "TrimSuffix", [.s a, .s b] => encStr (if spec then Std.Go.trimSuffix a b else Std.Lib.trimSuffix a b)
+      | "TrimLeft", [.s a, .s b] => encStr (if spec then Std.Go.trimLeft a b else Std.Lib.trimLeft a b)
+      | "TrimRight", [.s a, .s b] => encStr (if spec then Std.Go.trimRight a b else Std.Lib.trimRight a b)
+      | "Trim", [.s a, .s b] => encStr (if spec then Std.Go.trim a b else Std.Lib.trim a b)
+      | "TrimSpace", [.s a] => encStr (if spec then Std.Go.trimSpace a else Std.Lib.trimSpace a)
+      | _, _ => "unknown"
+  | [] => "BADREQ"
+
 def handle (line : String) : String :=
+  if line.startsWith "STRM " then handleStr false ((line.drop 5).toString.splitOn " ") else
+  if line.startsWith "STRS " then handleStr true ((line.drop 5).toString.splitOn " ") else
   if line.startsWith "FULLBATCH " then handleFullBatch ((line.drop 10).toString.splitOn " ") else
   if line.startsWith "CLI " then handleCli ((line.drop 4).toString.splitOn " ") else
   if line.startsWith "FULLBASH " then handleFullBash ((line.drop 9).toString.splitOn " ") else
